@@ -635,18 +635,43 @@ def idivmod(a, b, zero='raise'):
         if zc is True or (zc is not False and bool(zc)):
             raise ZeroDivisionError('integer division or modulo by zero')
         zc = False
+    if zc is not False and EX is not None and EX.implied(b_not(zc)):
+        zc = False                              # the path condition excludes a zero divisor
     qlo, qhi = _divrange(a, b)
     rlo, rhi = _modrange(a, b)
     if zc is not False:
         qlo, qhi, rlo, rhi = _min(qlo, 0), _max(qhi, 0), _min(rlo, 0), _max(rhi, 0)
     w = _max(a.w, b.w) + 1
-    x, y = a.ext(w), b.ext(w)
-    ysafe = z3.If(y == 0, z3.BitVecVal(1, w), y)
-    qt, rt = x / ysafe, z3.SRem(x, ysafe)
-    adj = z3.And(rt != 0, (rt < 0) != (ysafe < 0))
-    q = z3.If(adj, qt - 1, qt)
-    r = z3.If(adj, rt + ysafe, rt)
+    # one quotient/remainder kernel per operand pair: the lifted code and the specification (and the raw and repr methods)
+    # then share one syntactic term, so no query has to prove two divider circuits equivalent
+    key = (a.bv.get_id(), b.bv.get_id(), w)
+    memo = getattr(EX, '_divs', None) if EX is not None else None
+    hit = memo.get(key) if memo is not None else None
+    if hit is not None:
+        q, r = hit[0], hit[1]
+    else:
+        x, y = a.ext(w), b.ext(w)
+        ysafe = y if (b.lo > 0 or b.hi < 0) else z3.If(y == 0, z3.BitVecVal(1, w), y)
+        if a.lo >= 0 and b.lo >= 0:
+            q, r = z3.UDiv(x, ysafe), z3.URem(x, ysafe)          # both operands non-negative: no floor correction
+        else:
+            qt, rt = x / ysafe, z3.SRem(x, ysafe)
+            adj = z3.And(rt != 0, (rt < 0) != (ysafe < 0))
+            q = z3.If(adj, qt - 1, qt)
+            r = z3.If(adj, rt + ysafe, rt)
+        if memo is not None:
+            memo[key] = (q, r, a, b)                             # a, b kept alive: AST ids are recycled once a term is freed
+            # valid facts about the kernel (0 <= |r| < |y|, r has the divisor's sign; static ranges), given to the solver as lemmas:
+            # the narrowed result vectors otherwise hide them behind a divider circuit
+            dq = _divrange(a, b)
+            dr = _modrange(a, b)
+            if not (b.lo > 0 or b.hi < 0):
+                dq, dr = (_min(dq[0], -_abs(a.lo), -_abs(a.hi)), _max(dq[1], _abs(a.lo), _abs(a.hi))), (_min(dr[0], 0), _max(dr[1], 0))
+            bv = lambda v: z3.BitVecVal(v, w)
+            EX.lemma(z3.And(z3.If(ysafe > 0, z3.And(r >= 0, r < ysafe), z3.And(r <= 0, r > ysafe)),
+                            r >= bv(dr[0]), r <= bv(dr[1]), q >= bv(dq[0]), q <= bv(dq[1])))
     if zc is not False:
+        y = b.ext(w)
         q = z3.If(y == 0, z3.BitVecVal(0, w), q)
         r = z3.If(y == 0, z3.BitVecVal(0, w), r)
     return mk(q, qlo, qhi), mk(r, rlo, rhi)
@@ -1014,7 +1039,28 @@ def round53(v):
     # values with <= 53 significant bits come back unchanged (rest == 0); zero stays zero
     hi = 1 << top
     mag = mk(z3.ZeroExt(1, r), 0, hi)
-    return iite(icmp(v, 0, '<'), ineg(mag), mag)
+    res = iite(icmp(v, 0, '<'), ineg(mag), mag)
+    memo = getattr(EX, '_rne', None) if EX is not None else None
+    if memo is not None and _isinstance(res, SInt):
+        memo[res.bv.get_id()] = (v, res)          # both kept alive (AST ids are recycled); used by fcmp: round53(v) == v  <=>  v is a double
+    return res
+
+
+def fits53(n):
+    """integer n has at most 53 significant bits (float(n) == n)"""
+    if not _isinstance(n, SInt):
+        n = _abs(int(n))
+        while n and n % 2 == 0:
+            n //= 2
+        return n < (1 << 53)
+    a = iabs(n)
+    top = _max(_abs(n.lo), _abs(n.hi)).bit_length()
+    if top <= 53:
+        return True
+    alts = [icmp(a, 1 << 53, '<')]
+    for sh in range(1, top - 53 + 1):
+        alts.append(b_and(icmp(a, 1 << (53 + sh), '<'), icmp(imod_pow2(a, sh), 0, '==')))
+    return b_or(*alts)
 
 
 def _fexact(num, exp, why):
@@ -1062,6 +1108,15 @@ def fcmp(a, b, op):
     if not is_sym(a) and not is_sym(b):
         return _CMP[op](a, b)
     x, y, _ = faligned(_xlift(a), _xlift(b))
+    if op in ('==', '!=') and _isinstance(x, SInt) and _isinstance(y, SInt):
+        memo = getattr(EX, '_rne', None) if EX is not None else None
+        if memo:
+            for p, q in ((x, y), (y, x)):
+                hit = memo.get(q.bv.get_id())
+                if hit is not None and hit[0].bv.get_id() == p.bv.get_id():
+                    # comparing an integer with its own correctly rounded double: equal iff it has <= 53 significant bits
+                    d = fits53(p)
+                    return d if op == '==' else b_not(d)
     return icmp(x, y, op)
 
 
